@@ -139,6 +139,23 @@ func call(b kafka.GroupBalancer, ms []member, ps []part) (res string) {
 //	fparts <topic> <parts>      -> findPartitions(topic, parts)
 func helpers(ms []member, ps []part, topics int) {
 	gm, gp := toGo(ms, ps)
+	{ // xtopics <members> -> extractTopics(members) as topic numbers in ascending numeric order (a set: Go sorts the names)
+		var ts []int
+		bad := false
+		for _, t := range kafka.VerifExtractTopics(gm) {
+			n, err := strconv.Atoi(strings.TrimPrefix(t, "t"))
+			if err != nil {
+				bad = true
+			}
+			ts = append(ts, n)
+		}
+		sort.Ints(ts)
+		o := ints(ts)
+		if bad {
+			o = "bad-topic"
+		}
+		fmt.Fprintf(out, "xtopics %s\t%s\n", fmtMembers(ms), o)
+	}
 	byTopic := kafka.VerifFindMembersByTopic(gm)
 	for t := 0; t < topics; t++ {
 		var ids []string
@@ -151,6 +168,177 @@ func helpers(ms []member, ps []part, topics int) {
 		}
 		fmt.Fprintf(out, "fmbt %s %d\t%s\n", fmtMembers(ms), t, o)
 		fmt.Fprintf(out, "fparts %d %s\t%s\n", t, fmtParts(ps), ints(kafka.VerifFindPartitions(topicName(t), gp)))
+	}
+}
+
+// ---- byte level (Model/GroupWire.lean): the real writers / readers of the two group payloads ----------------------
+
+type entry struct {
+	name string
+	vals []int32
+}
+
+func ints32(xs []int32) string {
+	if len(xs) == 0 {
+		return "-"
+	}
+	s := make([]string, len(xs))
+	for i, x := range xs {
+		s[i] = strconv.Itoa(int(x))
+	}
+	return strings.Join(s, ",")
+}
+
+func fmtEntries(es []entry) string {
+	if len(es) == 0 {
+		return "-"
+	}
+	s := make([]string, len(es))
+	for i, e := range es {
+		s[i] = "x" + hex.EncodeToString([]byte(e.name)) + "=" + ints32(e.vals)
+	}
+	return strings.Join(s, ";")
+}
+
+func hexOr(b []byte) string {
+	if len(b) == 0 {
+		return "-"
+	}
+	return hex.EncodeToString(b)
+}
+
+// renderAssignment: ok|v<version>|<entries sorted by hex name>|u<hex user data>|r<remain>, or err
+func renderAssignment(b []byte) (res string) {
+	defer func() {
+		if r := recover(); r != nil {
+			res = "panic"
+		}
+	}()
+	v, topics, u, remain, err := kafka.VerifC14ReadAssignment(b)
+	if err != nil {
+		return "err"
+	}
+	var es []string
+	for t, ps := range topics {
+		es = append(es, "x"+hex.EncodeToString([]byte(t))+"="+ints32(ps))
+	}
+	sort.Strings(es)
+	e := "-"
+	if len(es) > 0 {
+		e = strings.Join(es, ";")
+	}
+	return fmt.Sprintf("ok|v%d|%s|u%s|r%d", v, e, hexOr(u), remain)
+}
+
+func renderMetadata(b []byte) (res string) {
+	defer func() {
+		if r := recover(); r != nil {
+			res = "panic"
+		}
+	}()
+	v, topics, u, remain, err := kafka.VerifC14ReadMetadata(b)
+	if err != nil {
+		return "err"
+	}
+	ts := make([]string, len(topics))
+	for i, t := range topics {
+		ts[i] = "x" + hex.EncodeToString([]byte(t))
+	}
+	e := "-"
+	if len(ts) > 0 {
+		e = strings.Join(ts, ";")
+	}
+	return fmt.Sprintf("ok|v%d|%s|u%s|r%d", v, e, hexOr(u), remain)
+}
+
+// wire emits the byte-level cases:
+//
+//	abytes <entries>            -> hex of groupAssignment{1, entries}.bytes()   (Go picks the entry order)
+//	aread <hex> <entries|?>     -> what groupAssignment.readFrom makes of the bytes (entries given for intact bytes)
+//	mbytes <topics> <userdata>  -> hex of groupMetadata{1, topics, userdata}.bytes()   (userdata: nil | x<hex>)
+//	mread <hex> <topics|?> <userdata|?>
+func wire(r *rand.Rand, n int) {
+	name := func() string {
+		switch r.Intn(4) {
+		case 0:
+			return "t" + strconv.Itoa(r.Intn(12))
+		case 1:
+			return string(gen.Bytes(r, r.Intn(5)))
+		case 2:
+			return strings.Repeat("n", 200+r.Intn(200))
+		default:
+			return "topic-" + strconv.Itoa(r.Intn(1000))
+		}
+	}
+	val := func() int32 {
+		switch r.Intn(5) {
+		case 0:
+			return int32(r.Uint32()) // any int32, negative too
+		case 1:
+			return []int32{0, -1, 2147483647, -2147483648, 255, 256, 65535, 65536}[r.Intn(8)]
+		default:
+			return int32(r.Intn(64))
+		}
+	}
+	for k := 0; k < n; k++ {
+		ne := r.Intn(5)
+		if r.Intn(8) == 0 {
+			ne = r.Intn(30)
+		}
+		seen := map[string]bool{}
+		var es []entry
+		for len(es) < ne {
+			nm := name()
+			if seen[nm] {
+				continue
+			}
+			seen[nm] = true
+			vs := make([]int32, r.Intn(6))
+			for i := range vs {
+				vs[i] = val()
+			}
+			es = append(es, entry{nm, vs})
+		}
+		m := map[string][]int32{}
+		for _, e := range es {
+			m[e.name] = e.vals
+		}
+		b := kafka.VerifC14AssignmentBytes(m)
+		fmt.Fprintf(out, "abytes %s\t%s\n", fmtEntries(es), hexOr(b))
+		fmt.Fprintf(out, "aread %s %s\t%s\n", hexOr(b), fmtEntries(es), renderAssignment(b))
+		if len(b) > 0 { // a cut and a flipped byte: the reader model must make the same of them as the code
+			cut := b[:r.Intn(len(b))]
+			fmt.Fprintf(out, "aread %s ?\t%s\n", hexOr(cut), renderAssignment(cut))
+		}
+		// metadata
+		nt := r.Intn(5)
+		ts := make([]string, nt)
+		tsf := make([]string, nt)
+		for i := range ts {
+			ts[i] = name()
+			if i > 0 && r.Intn(5) == 0 {
+				ts[i] = ts[r.Intn(i)] // a repeated topic
+			}
+			tsf[i] = "x" + hex.EncodeToString([]byte(ts[i]))
+		}
+		tl := "-"
+		if nt > 0 {
+			tl = strings.Join(tsf, ";")
+		}
+		var ud []byte
+		uds := "nil"
+		if r.Intn(3) != 0 {
+			ud = []byte(zoneName(r.Intn(4)))
+			if ud == nil {
+				ud = []byte{}
+			}
+			uds = "x" + hex.EncodeToString(ud)
+		}
+		mb := kafka.VerifC14MetadataBytes(ts, ud)
+		fmt.Fprintf(out, "mbytes %s %s\t%s\n", tl, uds, hexOr(mb))
+		fmt.Fprintf(out, "mread %s %s %s\t%s\n", hexOr(mb), tl, uds, renderMetadata(mb))
+		cut := mb[:r.Intn(len(mb))]
+		fmt.Fprintf(out, "mread %s ? ?\t%s\n", hexOr(cut), renderMetadata(cut))
 	}
 }
 
@@ -173,7 +361,8 @@ func canon32(a map[string]map[string][]int32) string {
 }
 
 // glue runs one whole rebalance round on the real leader glue (verif_export_c14b.go) and emits what every member
-// RECEIVES: ops grange / grr / grack with the same request format as range / rr / rack.  Repeated to sample the
+// RECEIVES: ops grange / grr / grack with the same request format as range / rr / rack; ops vrange / vrr / vrack emit
+// instead what every member ends up with in Generation.Assignments (after fetchOffsets and makeAssignments).  Repeated to sample the
 // iteration orders of the Go maps involved (GroupMemberAssignments, the per-member topic maps, RackAffinity's maps);
 // every distinct outcome is a case.  members[0] is the leader.
 func glue(op string, ms []member, ps []part, repeat int) {
@@ -198,9 +387,12 @@ func glue(op string, ms []member, ps []part, repeat int) {
 					res = "panic"
 				}
 			}()
-			got, _, err := kafka.VerifC14LeaderRound(protoOf[op], vm, gp)
+			got, final, _, err := kafka.VerifC14Round(protoOf["g"+op[1:]], vm, gp)
 			if err != nil {
 				return "panic"
+			}
+			if op[0] == 'v' { // Generation.Assignments after fetchOffsets / makeAssignments
+				return canon(kafka.GroupMemberAssignments(final))
 			}
 			return canon32(got)
 		}()
@@ -344,7 +536,7 @@ func main() {
 					}
 					run("rack", ms, ps, rackRepeat)
 					if n >= 2 || caseNo%3 == 0 {
-						op := []string{"grange", "grr", "grack"}[caseNo%3]
+						op := []string{"grange", "grr", "grack", "vrange", "vrr", "vrack"}[caseNo%6]
 						glue(op, ms, ps, glueRepeat)
 					}
 				}
@@ -413,7 +605,22 @@ func main() {
 		glue("grange", ms, ps, glueRepeat)
 		glue("grr", ms, ps, glueRepeat)
 		glue("grack", ms, ps, glueRepeat)
+		glue([]string{"vrange", "vrr", "vrack"}[k%3], ms, ps, glueRepeat)
 	}
+
+	// ---- 2b. byte level
+	nWire := 600
+	if thorough {
+		nWire = 8000
+	}
+	wire(r, nWire)
+
+	// ---- 2c. life cycle: real ConsumerGroups, real goroutines, a small coordinator (life.go)
+	nLife := 9
+	if thorough {
+		nLife = 60
+	}
+	lifeCases(r, nLife)
 
 	// the two regression witnesses of finding C14-D30 (Props/C14.lean §5)
 	{
